@@ -699,7 +699,7 @@ func (in *inv) step(op *Op) {
 		}
 		for phase := 0; phase <= op.N; phase++ { // N > 0: the SAME map is handed to Repeat again (several phases of one test case sharing their actions)
 			func() {
-				r.rec.Emit("sm.begin", F{"inv": in.id, "n": len(op.Actions), "hasinv": op.Inv != nil, "actions": names, "phase": phase})
+				r.rec.Emit("sm.begin", F{"inv": in.id, "n": len(op.Actions), "hasinv": op.Inv != nil, "actions": names, "phase": phase, "failedbefore": t.Failed()})
 				smdone := false
 				defer func() { r.rec.Emit("sm.end", F{"inv": in.id, "ret": smdone}) }()
 				t.Repeat(actions)
